@@ -15,7 +15,7 @@ Chain(pol, rules) == [policy |-> pol, rules |-> rules]
 NoFn == [x \in {} |-> {}]
 Cfg(routes, tables) == [routes |-> routes, tables |-> tables]
 
-Dsts == {"any", "n14", "n12", "h1"}
+Dsts == {"any", "n14", "n24", "n12", "h1"}     \* n14 and n24 share their network address
 AllRoutes == [dst : Dsts, hop : {"gA", "gB"}]
 
 (* R1: route sets; device and target may hold two routes to one destination *)
